@@ -86,6 +86,13 @@ def run(ctx, res):
                ("ops/c.graphql", "query D { a(zeta: 1, alpha: 2, mid: 3, beta: 4) }\n")]
     cases.append({"name": "faulty-ops", "faulty": True, "schemaFiles": ops_schema, "opFiles": [{"rel": r, "text": t} for r, t in bad_ops], "config": CONFIG,
                   "runs": 4 if ctx.quick else 12, "perms": [], "schemaOutput": "gen/schema.d.ts", "schemaSource": "../gen/schema.js"})
+    # the same layout in several files: diagnostics of different files at the SAME line and column (differing in message only), plus a
+    # broken fragment that two of the files import (its diagnostic arises once per importing file)
+    twins = [("ops/t%s.graphql" % k, "#import Broken from \"./lib.graphql\"\nquery T%s { zz%s b(x: $u%s) ...Broken }\n" % (k, k, k)) if k in "ab"
+             else ("ops/t%s.graphql" % k, "\nquery T%s { zz%s b(x: $u%s) }\n" % (k, k, k)) for k in "abcdef"]
+    twins.append(("ops/lib.graphql", "fragment Broken on Query { gone }\n"))
+    cases.append({"name": "faulty-ops-twins", "faulty": True, "schemaFiles": ops_schema, "opFiles": [{"rel": r, "text": t} for r, t in twins], "config": CONFIG,
+                  "runs": 4 if ctx.quick else 12, "perms": [], "schemaOutput": "gen/schema.d.ts", "schemaSource": "../gen/schema.js"})
     bad_schema = ("type Query { a(x: Nope1, y: Nope2, z: Nope3): Gone1 b: Gone2 c: Gone3 @u1 @u2 @u3 }\n"
                   "type T implements I1 & I2 & I3 { f: Int }\nunion U = M1 | M2 | M3\ninput In { p: Out1 q: Out2 r: Out3 }\n")
     cases.append({"name": "faulty-schema", "faulty": True, "schemaFiles": [{"rel": "schema/s0.graphql", "text": bad_schema}],
@@ -105,8 +112,8 @@ def run(ctx, res):
     bad_exit = [e for e in events if e["ev"] == "Run" and e["exit"] != 0 and e["group"] not in faulty_groups]
     if bad_exit:
         raise vlib.ToolError("a C17 project does not generate cleanly: group %s" % bad_exit[0]["group"])
-    res.rule = ("%d projects (3 catalogue projects: schema + operations incl. several Boolean variables, imports, unions/interfaces; 2 projects "
-                "carrying many diagnostics: several faults per site, per file, in operations and in the schema): %d fresh CLI "
+    res.rule = ("%d projects (3 catalogue projects: schema + operations incl. several Boolean variables, imports, unions/interfaces; 3 projects "
+                "carrying many diagnostics: several faults per site, per file, in operations and in the schema; one with six files of the same layout, i.e. diagnostics of different files at one line and column): %d fresh CLI "
                 "processes each (Rust's per-process hash seeds) + the in-process library route must agree byte for byte (declarations, "
                 "source maps, server schema, stdout); spec->impl: Gen_C17 enumerates every permutation of %d blocks of schema definitions "
                 "x every split over two files (%d arrangements per project%s): verdict and every exported type alias (order-insensitive "
